@@ -145,7 +145,8 @@ impl DumpHeader {
                 b".nroots" => nroots = parse_single_usize(value, line_no)?,
                 b".rootids" => {
                     header.rootids.clear();
-                    header.rootids.reserve(nroots);
+                    // don't trust the count from the file for the allocation
+                    header.rootids.reserve(nroots.min(value.len()));
                     parse_edge_list(value, &mut header.rootids, line_no)?;
                 }
                 b".rootnames" => header.rootnames = parse_str_list(value, nroots),
@@ -204,7 +205,11 @@ impl DumpHeader {
             }
         }
 
-        let mut level_count = vec![0u32; header.nvars as usize];
+        let mut level_count = Vec::new();
+        if level_count.try_reserve_exact(header.nvars as usize).is_err() {
+            return Err(io::ErrorKind::OutOfMemory.into());
+        }
+        level_count.resize(header.nvars as usize, 0u32);
         for &level in &header.permids {
             let Some(count) = level_count.get_mut(level as usize) else {
                 return err(format!(
@@ -578,7 +583,12 @@ where
     M::InnerNode: HasLevel,
     M::Terminal: ParseTagged<M::EdgeTag>,
 {
-    let mut nodes = EdgeVecDropGuard::new(manager, Vec::with_capacity(header.nnodes));
+    // `.nnodes` is not validated against the actual file content yet, so limit
+    // the pre-allocation
+    let mut nodes = EdgeVecDropGuard::new(
+        manager,
+        Vec::with_capacity(header.nnodes.min(MAX_NODES_PREALLOC)),
+    );
     let mut line = Vec::new();
     let mut children = Vec::with_capacity(M::InnerNode::ARITY);
     for node_id in 1..=header.nnodes {
@@ -736,7 +746,12 @@ where
         Ok((id - 1) as usize)
     }
 
-    let mut nodes = EdgeVecDropGuard::new(manager, Vec::with_capacity(header.nnodes));
+    // `.nnodes` is not validated against the actual file content yet, so limit
+    // the pre-allocation
+    let mut nodes = EdgeVecDropGuard::new(
+        manager,
+        Vec::with_capacity(header.nnodes.min(MAX_NODES_PREALLOC)),
+    );
     for node_id in 1..=header.nnodes {
         let node_code = read_unescape(&mut input)?;
         let var_code = Code::from((node_code >> 5) & 0b11);
@@ -815,6 +830,10 @@ where
     Ok(nodes.into_vec())
 }
 
+/// Upper bound for the number of nodes to pre-allocate based on the `.nnodes`
+/// header field (the vector grows as needed)
+const MAX_NODES_PREALLOC: usize = 1 << 16;
+
 /// Read and unescape a byte. Counterpart of [`write_escaped()`]
 fn read_unescape(input: impl io::BufRead) -> io::Result<u8> {
     // In principle, `io::Read` (instead of `io::BufRead`) is enough, but not
@@ -882,7 +901,9 @@ const fn trim(s: &[u8]) -> &[u8] {
 ///
 /// All strings in the returned vector are guaranteed to be non-empty.
 fn parse_str_list(input: &[u8], capacity: usize) -> Vec<String> {
-    let mut res = Vec::with_capacity(capacity);
+    // `capacity` is a count from the file, the list cannot have more entries
+    // than `input` has bytes
+    let mut res = Vec::with_capacity(capacity.min(input.len()));
     let mut start = 0;
     for pos in memchr::memchr2_iter(b' ', b'\t', input).chain([input.len()]) {
         // skip empty strings
@@ -989,7 +1010,9 @@ parse_single_unsigned!(parse_single_usize, usize);
 
 /// Parse a space (or tab) separated list of integers
 fn parse_u32_list(input: &[u8], capacity: usize, line_no: usize) -> io::Result<Vec<u32>> {
-    let mut res = Vec::with_capacity(capacity);
+    // `capacity` is a count from the file, the list cannot have more entries
+    // than `input` has bytes
+    let mut res = Vec::with_capacity(capacity.min(input.len()));
     let mut i = 0u32;
     let mut num = false;
 
